@@ -264,7 +264,47 @@ def r14_4b(ctx, which):
     ctx.floor("R14.4", "do_numeric-digit-paths/" + which, n, 2)
 
 
+def semicolon_rule(ctx, rule):
+    """finish_named (HTML): a matched name that ends in ';' is always a reference; the legacy exceptions (attribute value followed
+    by '=' or an alphanumeric) apply only after the semicolon test failed; the character after the match comes from name_buf"""
+    T = ctx.tables("html")
+    cells = mc.to_json({"finish_named": T["charref"]["finish_named"]})["finish_named"]
+    n = 0
+    bad = None
+    for c in cells:
+        g = c["guards"]
+        semi = [v for k, v in g.items() if "matches (_,';',_)" in k]
+        exc = [k for k, v in g.items() if v and ("matches (true,_,Some('='))" in k or "matches (true,_,Some(_))" in k)]
+        names = [a[0] for a in c["actions"]]
+        unconsume = "unconsume_name" in names
+        matched = any(v and "self.name_match matches Some((_,_))" in k for k, v in g.items()) and g.get("(self.name_len > 0)") is True
+        if not matched:
+            continue
+        n += 1
+        if any(semi) and unconsume:
+            bad = "a reference whose matched name ends in ';' is unconsumed"
+        if exc and not semi:
+            bad = "the attribute exception is applied without first testing that the match does not end in ';' (e.g. &amp;= inside an attribute value stays undecoded)"
+        for k in g:
+            if "matches (true,_," in k or "matches (_,';',_)" in k:
+                if "self.is_consumed_in_attribute" not in k.split(",")[0]:
+                    bad = "the exception does not test is_consumed_in_attribute: " + k[:120]
+                parts = k.split(" matches ")[0]
+                comps = mc._split_top(parts.strip()[1:-1], ",") if parts.strip().startswith("(") else []
+                if len(comps) != 3:
+                    bad = "the legacy-exception test is not over (in attribute, last matched character, next character): " + parts[:200]
+                    continue
+                if not (comps[2].strip() == "None" or comps[2].strip().startswith("Some(self.name_buf()[self.name_len..]")):
+                    bad = "the character after the match is not taken from name_buf[name_len..]: " + comps[2][:160]
+                if not comps[1].strip().startswith("self.name_buf()[(self.name_len - 1)..]"):
+                    bad = "the last matched character is not name_buf[name_len - 1]: " + comps[1][:160]
+    ctx.ob(rule, "named-reference-semicolon-before-legacy-exception", bad is None and n >= 6, bad or "%d matched paths: ';' decides first; '=' / alphanumeric exceptions only in attributes and only after it; both characters come from name_buf around name_len" % n,
+           "html5ever tokenizer char_ref finish_named")
+
+
 def run(ctx):
+    ctx.rule("R14.6", "a matched named reference ending in ';' is always decoded; the legacy attribute exception is tested only after that, on the character that follows the match in name_buf")
+    ctx.guard("R14.6", "semicolon", lambda: semicolon_rule(ctx, "R14.6"))
     ctx.rule("R14.1", "web_atoms/entities.rs equals CPython html.entities.html5 (name -> code points), both directions")
     ctx.rule("R14.2", "generated PHF map = names + all proper prefixes (->(0,0)) + empty key; build.rs has the prefix loop")
     ctx.rule("R14.3", "C1_REPLACEMENTS equals cp1252 on 0x80..0x9F")
